@@ -203,3 +203,56 @@ pub fn run_files(a: &Args) {
     out.assumptions.push("the independent reader (harness/src/c14.rs: section-header based, hand-written, no goblin) defines the expected build id / SONAME of installed files".into());
     out.finish(&a.out, "installed ELF files: BuildId/SoName::read_from_file vs an independent section-based reader (GNU build-id note, else XOR-fold of the first page of the first executable PROGBITS section; DT_SONAME via .dynamic/.dynstr); non-trivial = the file has a build id; distinct by path");
 }
+
+/// a well-formed ELF64 image without program headers: [ehdr][pad][.text][note?][.shstrtab][section headers]
+fn synth_elf(text_off: usize, text: &[u8], note: Option<&[u8]>, note_align: u64) -> Vec<u8> {
+    let mut b = vec![0u8; 64];
+    b[0..4].copy_from_slice(b"\x7fELF"); b[4] = 2; b[5] = 1; b[6] = 1;
+    b[16] = 3; b[18] = 62; b[20] = 1;
+    b.resize(text_off.max(64), 0);
+    let toff = b.len(); b.extend_from_slice(text);
+    while b.len() % 8 != 0 { b.push(0); }
+    let noff = b.len();
+    if let Some(id) = note { b.extend_from_slice(&4u32.to_le_bytes()); b.extend_from_slice(&(id.len() as u32).to_le_bytes()); b.extend_from_slice(&3u32.to_le_bytes()); b.extend_from_slice(b"GNU\0"); while (b.len() - noff) % note_align as usize != 0 { b.push(0); } b.extend_from_slice(id); while b.len() % 8 != 0 { b.push(0); } }
+    let nlen = b.len() - noff;
+    let strtab = b"\0.text\0.note.gnu.build-id\0.shstrtab\0"; let soff = b.len(); b.extend_from_slice(strtab);
+    while b.len() % 8 != 0 { b.push(0); }
+    let shoff = b.len();
+    let mut sh = |name: u32, typ: u32, flags: u64, off: usize, size: usize, align: u64, b: &mut Vec<u8>| {
+        b.extend_from_slice(&name.to_le_bytes()); b.extend_from_slice(&typ.to_le_bytes()); b.extend_from_slice(&flags.to_le_bytes()); b.extend_from_slice(&0u64.to_le_bytes());
+        b.extend_from_slice(&(off as u64).to_le_bytes()); b.extend_from_slice(&(size as u64).to_le_bytes()); b.extend_from_slice(&0u32.to_le_bytes()); b.extend_from_slice(&0u32.to_le_bytes());
+        b.extend_from_slice(&align.to_le_bytes()); b.extend_from_slice(&0u64.to_le_bytes()); };
+    sh(0, 0, 0, 0, 0, 0, &mut b);
+    sh(1, 1, 6, toff, text.len(), 16, &mut b);
+    let mut n = 3u16;
+    if note.is_some() { sh(7, 7, 2, noff, nlen, note_align, &mut b); n = 4; }
+    sh(26, 3, 0, soff, strtab.len(), 1, &mut b);
+    b[40..48].copy_from_slice(&(shoff as u64).to_le_bytes()); b[58..60].copy_from_slice(&64u16.to_le_bytes()); b[60..62].copy_from_slice(&n.to_le_bytes()); b[62..64].copy_from_slice(&(n - 1).to_le_bytes());
+    b
+}
+
+/// well-formed synthetic images: text sections of many sizes at many file offsets, with and without a note
+pub fn run_synth(a: &Args) {
+    let mut rng = Rng::new(a.seed ^ 0x14);
+    let mut out = Out::new();
+    let sizes = [1usize, 7, 15, 16, 17, 100, 4095, 4096, 4097, 5000, 8192, 12289];
+    let offs = [0x40usize, 0x100, 0x1000, 0xff0, 0xfff, 0x1001, 0x2345];
+    let mut combos: Vec<(usize, usize, u8)> = Vec::new();
+    for s in sizes { for o in offs { for note in 0..3u8 { combos.push((s, o, note)); } } }
+    let want = if a.n == 0 { combos.len() } else { (a.n as usize).min(combos.len()) };
+    while combos.len() > want { let k = rng.below(combos.len() as u64) as usize; combos.swap_remove(k); }
+    for (s, o, note) in combos {
+        let text: Vec<u8> = (0..s).map(|_| rng.next() as u8).collect();
+        let id: Vec<u8> = (0..20).map(|_| rng.next() as u8).collect();
+        let img = synth_elf(o, &text, if note > 0 { Some(&id) } else { None }, if note == 2 { 8 } else { 4 });
+        let expected = if note > 0 { id.clone() } else { let mut f = vec![0u8; 16]; for (i, x) in text.iter().take(4096).enumerate() { f[i % 16] ^= *x; } f };
+        let mut l = Line::new("const"); l.z(s).z(o).u(note as u64).u(0).bytes(&expected);
+        let mut r = Line::bare(); r.z(s).z(o).u(note as u64);
+        let got = impl_build_id(&img); for t in got.split_whitespace() { r.n(u128::from_str_radix(t, 16).unwrap_or(0xfff)); }
+        out.count(if note > 0 { "synth.with_note" } else { "synth.text_hash" });
+        out.case(l.s(), r.s(), true);
+        // the same image through the Coq model when it is small enough to evaluate quickly
+        if img.len() < 3000 { let mut l = Line::new("c14"); l.bytes(&img); out.case(l.s(), &got, true); out.count("synth.model_compared"); }
+    }
+    out.finish(&a.out, "well-formed synthetic ELF64 images (no program headers): an executable PROGBITS section of size {1..12289} at file offsets {0x40..0x2345, aligned and not}, with no note / a 4-aligned / an 8-aligned GNU build-id note; expected id computed by construction (note descriptor, else XOR-fold of the first 4096 text bytes); small images also go through the Coq model");
+}
